@@ -170,7 +170,14 @@ defjvp(anp.gradient, "same")
 defjvp(anp.repeat, "same")
 defjvp(anp.tile, "same")
 defjvp(anp.transpose, "same")
-defjvp(anp.sum, "same")
+
+
+def fwd_grad_np_sum(g, ans, x, *args, **kwargs):
+    kwargs.pop("initial", None)  # the starting value of the sum is a constant: it does not enter the tangent
+    return anp.sum(g, *args, **kwargs)
+
+
+defjvp(anp.sum, fwd_grad_np_sum)
 defjvp(anp.mean, "same")
 defjvp(
     anp.prod, lambda g, ans, x, axis=None, keepdims=False: ans * anp.sum(g / x, axis=axis, keepdims=keepdims)
